@@ -961,3 +961,240 @@ Proof.
     + exfalso. now apply (Herr x).
     + exfalso. now apply (Herr x).
 Qed.
+
+(* C2: every Write is the line just handed to the scanner *)
+Fixpoint writes_ok (prev : option bytes) (t : list event) : Prop :=
+  match t with
+  | [] => True
+  | EvRead _ _ :: t' => writes_ok None t'
+  | EvLine d :: t' => writes_ok (Some d) t'
+  | EvWrite d :: t' => prev = Some d /\ writes_ok None t'
+  end.
+Fixpoint after (prev : option bytes) (t : list event) : option bytes :=
+  match t with
+  | [] => prev
+  | EvLine d :: t' => after (Some d) t'
+  | _ :: t' => after None t'
+  end.
+
+Lemma writes_ok_app a : forall p b, writes_ok p (a ++ b) <-> writes_ok p a /\ writes_ok (after p a) b.
+Proof.
+  induction a as [|[lp n|d|d] a IH]; intros p b; cbn [app writes_ok after]; rewrite ?IH; tauto.
+Qed.
+
+Lemma after_some t : forall p d, after p t = Some d ->
+  (t = [] /\ p = Some d) \/ exists t0, t = t0 ++ [EvLine d].
+Proof.
+  induction t as [|e t IH]; intros p d H; [left; split; [reflexivity|exact H]|]. right.
+  assert (Hgen : forall p', after p' t = Some d -> (p' = Some d -> e = EvLine d) ->
+            exists t0, e :: t = t0 ++ [EvLine d]).
+  { intros p' H' Hp. destruct (IH _ _ H') as [[-> Hp']|(t0 & ->)].
+    - exists []. cbn [app]. now rewrite (Hp Hp').
+    - exists (e :: t0). reflexivity. }
+  destruct e as [lp n|d'|d']; cbn [after] in H.
+  - apply (Hgen None H). discriminate.
+  - apply (Hgen (Some d') H). intros E. now injection E as ->.
+  - apply (Hgen None H). discriminate.
+Qed.
+
+Lemma reads_writes_ok seen content evs p : reads_ok seen content evs -> writes_ok p evs.
+Proof.
+  revert seen content p. induction evs as [|[lp n|d|d] evs IH]; intros seen content p H;
+    cbn [reads_ok writes_ok] in *; try contradiction; [exact I|].
+  destruct H as (_ & _ & H). exact (IH _ _ _ H).
+Qed.
+
+Lemma item_events_writes_ok p it : writes_ok p (item_events it).
+Proof. unfold item_events. destruct (is_fwd it); cbn [writes_ok]; tauto. Qed.
+
+Lemma run_writes ls log out : Run ls log out ->
+  writes_ok None (l_trace ls) -> writes_ok None (l_trace (o_ls out)).
+Proof.
+  induction 1 as [ls Hd|ls x r' src' evs Hd HRL|ls it r' src' Hst Hk|ls it r' src' x Hst Hk He1 He
+                 |ls it r' src' log out Hst Hk He1 He Hrun IH];
+    intros Hw; unfold o_ls in *; cbn [fst snd l_trace] in *.
+  - exact Hw.
+  - destruct HRL as (_ & _ & _ & _ & T & _). apply writes_ok_app. split; [exact Hw|].
+    apply (reads_writes_ok _ _ _ _ T).
+  - rewrite next_trace, app_assoc. apply writes_ok_app. split; [|apply item_events_writes_ok].
+    apply writes_ok_app. split; [exact Hw|]. apply (reads_writes_ok _ _ _ _ (line_step_reads _ _ _ _ Hst)).
+  - rewrite next_trace, app_assoc. apply writes_ok_app. split; [|apply item_events_writes_ok].
+    apply writes_ok_app. split; [exact Hw|]. apply (reads_writes_ok _ _ _ _ (line_step_reads _ _ _ _ Hst)).
+  - apply IH. rewrite next_trace, app_assoc. apply writes_ok_app. split; [|apply item_events_writes_ok].
+    apply writes_ok_app. split; [exact Hw|]. apply (reads_writes_ok _ _ _ _ (line_step_reads _ _ _ _ Hst)).
+Qed.
+
+Theorem write_follows_line : forall na src res,
+  scan_snapshot na src = Ok res ->
+  forall t1 d t2, trace res = t1 ++ EvWrite d :: t2 -> exists t0, t1 = t0 ++ [EvLine d].
+Proof.
+  intros na src res H.
+  destruct (snapshot_inv _ _ _ H) as (out & log & -> & Hrun).
+  pose proof (run_writes _ _ _ Hrun I) as Hw.
+  intros t1 d t2 E. destruct out as [[a err] sfx]. unfold o_ls in Hw. cbn [fst result_of trace] in *.
+  rewrite E in Hw. apply writes_ok_app in Hw. destruct Hw as [_ [Hw _]].
+  destruct (after_some _ _ _ Hw) as [[_ F]|Ht]; [discriminate F|exact Ht].
+Qed.
+
+(* ------------------------------------------------------------------ *)
+(* 9. B3: once a goroutine exists nothing is forwarded any more          *)
+
+Lemma state_eqb_eq a b : state_eqb a b = true -> a = b.
+Proof. destruct a, b; intros H; try reflexivity; discriminate H. Qed.
+
+Lemma linked_app s a : forall b, linked s (a ++ b) <-> linked s a /\ linked (last_state s a) b.
+Proof.
+  revert s. induction a as [|it a IH]; intros s b; cbn [app linked last_state]; [tauto|].
+  rewrite IH. tauto.
+Qed.
+
+Lemma last_state_app s a : forall b, last_state s (a ++ b) = last_state (last_state s a) b.
+Proof. revert s. induction a as [|it a IH]; intros s b; cbn [app last_state]; [reflexivity|apply IH]. Qed.
+
+Lemma log_mono log : forall s, Forall item_ok log -> linked s log ->
+  List.length (goroutines s) <= List.length (goroutines (last_state s log)) /\
+  forall it, In it log -> List.length (goroutines s) <= List.length (goroutines (it_post it)).
+Proof.
+  induction log as [|it log IH]; intros s Hok Hl; cbn [last_state].
+  - split; [apply le_n|intros it []].
+  - inversion Hok as [|? ? Hit Hok']. subst. destruct Hl as [Hpre Hl].
+    destruct Hit as (_ & _ & _ & _ & (_ & _ & Hm & _) & _). rewrite Hpre in Hm.
+    destruct (IH _ Hok' Hl) as [I1 I2]. split; [lia|].
+    intros it' [<-|Hin]; [exact Hm|]. specialize (I2 _ Hin). lia.
+Qed.
+
+(* a forwarded line is handled before any goroutine exists, in state
+   [looking] or right after a lone "==================" *)
+Lemma fwd_item it : item_ok it -> it_kind it = KForwarded ->
+  goroutines (it_pre it) = [] /\ goroutines (it_post it) = [] /\ st (it_post it) = looking /\
+  (st (it_pre it) = looking \/ st (it_pre it) = gotRaceHeader1).
+Proof.
+  intros (_ & _ & Hi & _ & (Hi' & _ & Hm & H4) & Hse & Hk) Hf.
+  rewrite Hk in Hf. unfold classify in Hf.
+  destruct (it_flag it) eqn:Hfl; [discriminate Hf|].
+  destruct (state_eqb (st (it_post it)) looking) eqn:Hlook; [|discriminate Hf].
+  apply state_eqb_eq in Hlook.
+  destruct (Inv_looking _ Hi' Hlook) as [Hg _].
+  assert (Hg0 : goroutines (it_pre it) = []).
+  { rewrite Hg in Hm. destruct (goroutines (it_pre it)); [reflexivity|cbn in Hm; lia]. }
+  split; [exact Hg0|]. split; [exact Hg|]. split; [exact Hlook|].
+  assert (Hn : it_serr it = None).
+  { destruct (it_serr it) as [x|] eqn:E; [|reflexivity].
+    assert (F : true = false) by (apply Hse; discriminate). discriminate F. }
+  destruct (H4 eq_refl Hn) as [E|[E|[E _]]].
+  - left. now rewrite <- E.
+  - rewrite Hlook in E. discriminate E.
+  - now right.
+Qed.
+
+Lemma contiguous log s : Forall item_ok log -> linked s log ->
+  forall l1 it l2, log = l1 ++ it :: l2 -> goroutines (it_post it) <> [] ->
+  Forall (fun it' => it_kind it' <> KForwarded) l2.
+Proof.
+  intros Hok Hl l1 it l2 -> Hne.
+  apply linked_app in Hl. destruct Hl as [_ [_ Hl2]].
+  apply Forall_app_r in Hok. inversion Hok as [|? ? _ Hok2]. subst.
+  destruct (log_mono _ _ Hok2 Hl2) as [_ Hm].
+  apply Forall_forall. intros it' Hin Hf.
+  assert (Hok' : item_ok it') by (rewrite Forall_forall in Hok2; now apply Hok2).
+  destruct (fwd_item _ Hok' Hf) as (_ & Hg & _).
+  specialize (Hm _ Hin). rewrite Hg in Hm. destruct (goroutines (it_post it)); [contradiction|cbn in Hm; lia].
+Qed.
+
+(* cut the log at the first line after which a goroutine exists *)
+Lemma first_goroutine (log : list item) :
+  Forall (fun it => goroutines (it_post it) = []) log \/
+  exists l1 it l2, log = l1 ++ it :: l2 /\
+    Forall (fun it => goroutines (it_post it) = []) l1 /\ goroutines (it_post it) <> [].
+Proof.
+  induction log as [|it log IH]; [left; constructor|].
+  destruct (goroutines (it_post it)) as [|g gs] eqn:E.
+  - destruct IH as [IH|(l1 & it' & l2 & -> & F & N)].
+    + left. now constructor.
+    + right. exists (it :: l1), it', l2. split; [reflexivity|]. split; [now constructor|exact N].
+  - right. exists [], it, log. split; [reflexivity|]. split; [constructor|]. rewrite E. discriminate.
+Qed.
+
+Lemma scan_lines_log log : forall s, Forall item_ok log -> linked s log ->
+  scan_lines s (map it_line log) = Ok (last_state s log).
+Proof.
+  induction log as [|it log IH]; intros s Hok Hl; [reflexivity|].
+  inversion Hok as [|? ? Hit Hok']. subst. destruct Hl as [Hpre Hl].
+  cbn [map scan_lines last_state]. destruct Hit as (_ & _ & _ & Hs & _). rewrite Hpre in Hs. rewrite Hs.
+  now apply IH.
+Qed.
+
+Lemma last_state_empty log : forall s, goroutines s = [] ->
+  Forall (fun it => goroutines (it_post it) = []) log -> goroutines (last_state s log) = [].
+Proof.
+  induction log as [|it log IH]; intros s Hs Hf; [exact Hs|].
+  inversion Hf. subst. cbn [last_state]. now apply IH.
+Qed.
+
+Theorem dump_contiguous : forall na B sc f res,
+  scan_snapshot na (mkSource B sc f) = Ok res ->
+  exists pre dump : list (bytes * kind),
+    noreads (trace res) = flat_map hl_events (pre ++ dump) /\
+    bytes_of (filter k_handled (pre ++ dump)) ++ suffix res ++ rest (unread res) = B /\
+    (* everything forwarded comes from the region before the dump ... *)
+    fwd res = bytes_of (filter k_fwd pre) /\
+    Forall (fun x => snd x <> KForwarded) dump /\
+    (* ... during which no goroutine exists ... *)
+    (exists s, scan_lines ss0 (map fst pre) = Ok s /\ goroutines s = [] /\
+       (* ... and the dump region starts with the line that creates the first one *)
+       forall x dump', dump = x :: dump' ->
+         exists s' l e, scan s (fst x) = Ok (s', l, e) /\ goroutines s' <> []) /\
+    (dump = [] <-> snap res = None).
+Proof.
+  intros na B sc f res H.
+  destruct (snapshot_inv _ _ _ H) as (out & log & -> & Hrun).
+  pose proof (run_partition _ _ _ Hrun) as Hp.
+  pose proof (run_fwd _ _ _ Hrun) as Hf.
+  pose proof (run_events _ _ _ Hrun) as He.
+  pose proof (run_items _ _ _ Hrun) as Hi.
+  destruct (run_linked _ _ _ Hrun) as [Hl Hls].
+  pose proof (suffix_tail na _ _ _ Hrun) as Hsfx.
+  unfold lstream, stream, init_ls in *.
+  cbn [l_r l_src l_fwd l_ss l_trace reader0 pending rest app noreads filter] in *.
+  assert (Hcommon : forall pre dump, log = pre ++ dump ->
+            noreads (trace (result_of na out)) = flat_map hl_events (hl_of pre ++ hl_of dump) /\
+            bytes_of (filter k_handled (hl_of pre ++ hl_of dump)) ++
+              suffix (result_of na out) ++ rest (unread (result_of na out)) = B).
+  { intros pre dump E. rewrite <- hl_of_app, <- E, hl_events_of, hl_handled_of, Hsfx.
+    destruct out as [[a err] sfx]. unfold o_ls in *. cbn [fst snd result_of trace unread] in *. tauto. }
+  assert (Hsnap : snap (result_of na out) = None <-> goroutines (last_state ss0 log) = []).
+  { destruct out as [[a err] sfx]. unfold o_ls in *. cbn [fst snd result_of snap] in *. rewrite Hls.
+    destruct (goroutines (last_state ss0 log)); split; intros F; try reflexivity; discriminate F. }
+  destruct (first_goroutine log) as [Hall|(l1 & it & l2 & E & Hall & Hne)].
+  - exists (hl_of log), []. destruct (Hcommon log [] (eq_sym (app_nil_r _))) as [C1 C2].
+    split; [exact C1|]. split; [exact C2|]. split; [|split; [constructor|split]].
+    + rewrite hl_fwd_of. destruct out as [[a err] sfx]. exact Hf.
+    + exists (last_state ss0 log). unfold hl_of. rewrite map_map. cbn [fst].
+      split; [now apply scan_lines_log|]. split; [now apply last_state_empty|]. intros x d F. discriminate F.
+    + split; [intros _|reflexivity]. apply Hsnap. now apply last_state_empty.
+  - exists (hl_of l1), (hl_of (it :: l2)). destruct (Hcommon _ _ E) as [C1 C2].
+    pose proof (contiguous _ _ Hi Hl _ _ _ E Hne) as Hnf.
+    pose proof Hl as Hl'. rewrite E in Hl'. apply linked_app in Hl'. destruct Hl' as [Hl1 [Hpre Hl2]].
+    pose proof Hi as Hi'. rewrite E in Hi'. apply Forall_app in Hi'. destruct Hi' as [Hi1 Hi2].
+    inversion Hi2 as [|? ? Hit Hi3]. subst.
+    split; [exact C1|]. split; [exact C2|]. split; [|split; [|split]].
+    + assert (Hz : List.concat (map fwd_bytes (it :: l2)) = []).
+      { assert (Hnf' : Forall (fun it' => it_kind it' <> KForwarded) (it :: l2)).
+        { constructor; [|exact Hnf]. intros F. destruct (fwd_item _ Hit F) as (_ & G & _). contradiction. }
+        clear - Hnf'. induction Hnf' as [|x l Hx _ IH]; [reflexivity|].
+        cbn [map List.concat]. rewrite IH. unfold fwd_bytes, is_fwd. destruct (it_kind x); try reflexivity.
+        contradiction. }
+      rewrite hl_fwd_of. destruct out as [[a err] sfx]. unfold o_ls in Hf. cbn [fst snd result_of fwd] in *.
+      rewrite Hf, map_app, concat_app, Hz, app_nil_r. reflexivity.
+    + unfold hl_of. apply Forall_map. cbn [snd]. constructor; [|exact Hnf].
+      intros F. destruct (fwd_item _ Hit F) as (_ & G & _). contradiction.
+    + exists (last_state ss0 l1). unfold hl_of at 1. rewrite map_map. cbn [fst].
+      split; [now apply scan_lines_log|]. split; [now apply last_state_empty|].
+      intros x d Ex. cbn [hl_of map] in Ex. injection Ex as <- _. cbn [fst].
+      destruct Hit as (_ & _ & _ & Hs & _). rewrite Hpre in Hs.
+      exists (it_post it), (it_flag it), (it_serr it). split; [exact Hs|exact Hne].
+    + split; [intros F; discriminate F|]. intros Hsn. exfalso. apply Hsnap in Hsn.
+      rewrite last_state_app in Hsn. cbn [last_state] in Hsn.
+      destruct (log_mono _ _ Hi3 Hl2) as [Hm _]. rewrite Hsn in Hm.
+      destruct (goroutines (it_post it)); [contradiction|cbn in Hm; lia].
+Qed.
